@@ -8,6 +8,7 @@ import (
 	"os"
 	"runtime/debug"
 	"strconv"
+	"strings"
 	"time"
 
 	"verif/checker/core"
@@ -23,6 +24,7 @@ func main() {
 	var overlays multiFlag
 	flag.Var(&overlays, "overlay", "relpath=file: analyse relpath (relative to -repo) with the content of file (in-memory overlay; repeatable)")
 	mutOnly := flag.Bool("mutants", false, "run only the overlay mutants of -prop and print a table (checker self-validation)")
+	dump := flag.String("dump", "", "debug: print the SSA of functions whose name contains this string")
 	flag.StringVar(&onlyMutant, "only", "", "with -mutants: run only mutants whose id contains this string")
 	flag.Parse()
 	if *list {
@@ -72,6 +74,14 @@ func main() {
 			fmt.Printf("VIOLATION property=%s replay=%s\n", id, "bin/verifcheck -prop "+id)
 		}
 		os.Exit(1)
+	}
+	if *dump != "" {
+		for _, f := range p.ScopeFuncs() {
+			if strings.Contains(f.String(), *dump) {
+				f.WriteTo(os.Stdout)
+			}
+		}
+		return
 	}
 	// watchdog: an analysis that does not terminate must not pass silently
 	time.AfterFunc(20*time.Minute, func() {
